@@ -122,7 +122,12 @@ def r_leg_link(ck: Checker) -> None:
     pa = ck.repo.func(LNODE, f"{CLS}.parent")
     what = "parent resolves the stored parent id through the registry"
     ok = any(isinstance(c, ast.Call) and norm(c.func) == "AwareASTNode.get_any" for c in walk_body(pa.node.body)) and "_parent_id" in norm(pa.node)
-    (ck.holds if ok else ck.violation)("R-LEG-LINK", pa, pa.node, what, **({} if ok else {"construct": "parent: lookup of _parent_id in the registry not recognised"}))
+    if ok:
+        ck.holds("R-LEG-LINK", pa, pa.node, what)
+    elif "_parent_id" not in norm(pa.node):
+        ck.violation("R-LEG-LINK", pa, pa.node, what, construct="parent: the stored parent id is not consulted")
+    else:
+        raise Unsupported("parent: lookup of _parent_id in the registry not recognised", pa.node)
 
     ai = ck.repo.func(LNODE, f"{CLS}._attach_inner")
     loops = [st for st in ai.node.body if isinstance(st, ast.For) and norm(st.iter) == "self.get_child_nodes_with_field()"]
@@ -134,7 +139,24 @@ def r_leg_link(ck: Checker) -> None:
         ok = norm(last) == f"{c}._set_parent(self, {fl}, {ix})"
         after = ai.node.body[ai.node.body.index(loops[0]) + 1:]
         ok = ok and any(norm(st) == "AwareASTNode._nodes[self.id] = self" for st in after)
-    (ck.holds if ok else ck.violation)("R-LEG-LINK", ai, ai.node, what, **({} if ok else {"construct": "_attach_inner: child link / registration not recognised or wrong"}))
+    if ok:
+        ck.holds("R-LEG-LINK", ai, ai.node, what)
+    else:
+        sp_calls = [c_ for c_ in ast.walk(ai.node) if isinstance(c_, ast.Call) and isinstance(c_.func, ast.Attribute) and c_.func.attr == "_set_parent"]
+        reg_store = any(isinstance(st_, ast.Assign) and norm(st_.targets[0]) == "AwareASTNode._nodes[self.id]" for st_ in ast.walk(ai.node))
+        if not sp_calls:
+            ck.violation("R-LEG-LINK", ai, ai.node, what, construct="_attach_inner: the children's parent link is never set")
+        elif not reg_store and not any("_nodes" in norm(st_) and isinstance(st_, (ast.Assign, ast.Expr)) for st_ in ai.node.body):
+            ck.violation("R-LEG-LINK", ai, ai.node, what, construct="_attach_inner: the node is not registered")
+        elif len(loops) == 1 and isinstance(loops[0].target, ast.Tuple) and len(loops[0].target.elts) == 3 and len(sp_calls) == 1 \
+                and [norm(a_) for a_ in sp_calls[0].args] != ["self", norm(loops[0].target.elts[1]), norm(loops[0].target.elts[2])] \
+                and any(sp_calls[0] is x_ for st_ in loops[0].body for x_ in ast.walk(st_)):
+            ck.violation("R-LEG-LINK", ai, ai.node, what, construct=f"_attach_inner: a child is linked with {norm(sp_calls[0])[:60]} (not the parent, field and index of its own enumeration tuple)")
+        elif sp_calls and not any(any(sp_calls[0] is x_ for x_ in ast.walk(st_)) for lp_ in loops for st_ in lp_.body):
+            # the link is set in another loop than the checking one (e.g. a second pass): an earlier failure leaves ... C19's subject; here: order
+            ck.violation("R-LEG-LINK", ai, ai.node, what, construct="_attach_inner: the children are linked outside the loop that enumerates (and checks) them")
+        else:
+            raise Unsupported("_attach_inner: child link / registration not recognised", ai.node)
 
     rc = ck.repo.func(LNODE, f"{CLS}._replace_child")
     seqs = [norm(st.targets[0]) for st in walk_body(rc.node.body) if isinstance(st, ast.Assign) and isinstance(st.targets[0], ast.Name)
